@@ -47,6 +47,9 @@ CHECKS = {
     "C12": dict(engine="E1+E5", cat="model_checking",
                 technique="explicit-state enumeration: valid base schema models (seeds and all valid models within d rewrites) x catalogue of schema-violation rewrites (each checked rule x each site), certified invalid by a reference schema validator; create_engine must raise on every one",
                 text="For 3 seed models and every valid model within 1 (thorough 2) rewrite, each rule named in the statement is broken at every site: undefined type (object / interface field, wrapped, argument, via extend, input field, directive argument), non-input type (object, interface, union as argument plain and wrapped, input field), interface contract (missing field, incompatible type x3, missing / mistyped / extra required argument, obligation added by extend), implements object / enum / undefined, roots (type removed, schema block naming undefined query / mutation / subscription, default and arbitrary names), object without fields, union containing itself, duplicate enum values (definition, definition+extend, inside one extend), duplicate types / directives, 17 kinds of invalid extend; plus a scalar without implementation, each of 11 non-awaitable directive hooks, every single-token deletion of a small SDL and 13 malformed texts. The valid bases are required to build."),
+    "C13": dict(engine="E1+E5", cat="model_checking",
+                technique="exhaustive enumeration of all placements (multisets) of <= 4 tagging-directive instances over 11 schema-side location kinds x 22 request spellings; non-commuting tagger hooks; a composition model predicts final values and the exact enter/exit hook log",
+                text="Every multiset of <= 4 (thorough 5) directive instances over SCHEMA, SCALAR, OBJECT, FIELD_DEFINITION, ARGUMENT_DEFINITION, INTERFACE, UNION, ENUM, ENUM_VALUE, INPUT_OBJECT, INPUT_FIELD_DEFINITION is cooked into a real engine (two, three or four instances on one element included), and queried with the argument as literal, variable and variable nested in an object literal, a scalar argument, 0-2 query-side field directives, and object / interface / union / enum results. Each hook tags the value on the way in and out (so order and multiplicity are visible in the result) using its own directive argument, and logs enter/exit. The composition model (leaf type hooks -> input field -> input object -> argument -> field hooks, query-side outside schema-side, first declared outermost -> resolver -> output hooks) predicts both the response and the complete hook log; only the two orders the documentation leaves open are accepted."),
     "C14": dict(engine="E3+E5", cat="model_checking",
                 technique="exhaustive enumeration of all event sequences up to length L over a 4-letter payload alphabet x subscription documents, each driven through the real subscribe() on a hand-stepped loop under all orders of source production and resolver completion; per-event comparison with the reference executor",
                 text="7 subscription documents (plain, alias, fragment, literal / variable / defaulted argument, scalar root) x ALL event sequences of length <= 3 (85; thorough 4: 341) over {well-formed payload, payload provoking a nullable-field error, payload provoking a non-null error, None} x all schedules of the source's production points and the resolvers' suspension points (+ <= 1 mid-run injection); 6 refused requests (validation, syntax, variable coercion, operation selection); thorough: two concurrent streams under all interleavings. Oracle: exactly one response per event, in order, each equal to the reference execution of the selection against that event; the source is started once with the spec-coerced arguments and the stream ends exactly when it ends; refused requests yield one errors-only response and never start the source."),
@@ -114,7 +117,7 @@ def main():
         "checks": checks,
         "notes": "One entry point: ./check <ID> [--tier quick|thorough] [--replay FILE]. Exit 0 held / 1 VIOLATION / 2 MACHINERY (the check itself is inconsistent). known_findings.json lists open findings (KNOWN-FINDING lines) and fixed ones (suppress nothing).",
         "not_applicable": [
-            {"property_id": p["id"], "reason": "check not yet built in this session (its model-checking design is DESIGN.md section 4); not claimed"}
+            {"property_id": p["id"], "reason": "check not yet built (its model-checking design is DESIGN.md section 4); not claimed"}
             for p in props if p["id"] not in claimed],
     }
     with open(os.path.join(VERIF, "MANIFEST.json"), "w") as f:
